@@ -7,17 +7,17 @@ Open Scope N_scope.
 
 (* encoder: a list is an array, a keyed array and an object are JSON objects with their keys in
    order, an int is an integer token, a finite float is a fraction/exponent token (it stays a
-   float when read back), NaN and the infinities cannot be encoded *)
+   float when read back); NaN, the infinities and text that is not UTF-8 cannot be encoded *)
 Fixpoint spec_to_json (int_bits : Z -> N) (v : pval) : option jtree :=
   match v with
   | PNull => Some JNull
   | PBool b => Some (JBool b)
   | PInt z => Some (JNum true z (int_bits z))
   | PFloat b => if f_finite b then Some (JNum false 0 b) else None
-  | PStr s => Some (JStr s)
+  | PStr s => if utf8_valid s then Some (JStr s) else None
   | PList l => match opt_map_all (spec_to_json int_bits) l with Some ts => Some (JArr ts) | None => None end
   | PMap l | PArr l =>
-      match opt_map_all (fun kv => match spec_to_json int_bits (snd kv) with
+      match opt_map_all (fun kv => match (if utf8_valid (fst kv) then spec_to_json int_bits (snd kv) else None) with
                                    | Some t => Some (fst kv, t) | None => None end) l with
       | Some ts => Some (JObj ts) | None => None end
   end.
@@ -41,6 +41,10 @@ Fixpoint spec_of_json (assoc : bool) (t : jtree) : pval :=
               if assoc then mk_arr kvs else PMap kvs
   end.
 
+(* the nesting limit: the decoded structure may have at most [depth] levels *)
+Definition spec_decode (assoc : bool) (depth : Z) (t : jtree) : option pval :=
+  let v := spec_of_json assoc t in if (depth <? nesting v)%Z then None else Some v.
+
 (* the same value seen through json_decode's two modes *)
 Fixpoint view (assoc : bool) (v : pval) : pval :=
   match v with
@@ -56,79 +60,31 @@ Definition key_in {A} (k : bytes) (l : list (bytes * A)) : bool :=
 Fixpoint nodup_keys {A} (l : list (bytes * A)) : bool :=
   match l with [] => true | (k, _) :: r => negb (key_in k r) && nodup_keys r end.
 
-(* values the format can carry: 64-bit ints, finite floats, no duplicate keys *)
+(* values the format can carry: 64-bit ints, finite floats, UTF-8 strings and keys, no duplicate keys *)
 Fixpoint spec_ok (v : pval) : bool :=
   match v with
   | PInt z => int64_ok z
   | PFloat b => f_finite b
+  | PStr s => utf8_valid s
   | PList l => forallb spec_ok l
-  | PMap l | PArr l => nodup_keys l && forallb (fun kv => spec_ok (snd kv)) l
+  | PMap l | PArr l => nodup_keys l && forallb (fun kv => utf8_valid (fst kv) && spec_ok (snd kv)) l
   | _ => true
   end.
 
-(* values on which today's encoder is right: no keyed array (its keys are dropped) and no float
-   that is printed like an integer (it would come back as an int) *)
-Definition float_enc_ok (b : N) : bool :=
-  match f_integral b with
-  | Some z => negb (f_finite b) || negb (Z.abs z <? 1000000000000000000000)%Z
-  | None => true
-  end.
-Fixpoint enc_ok (v : pval) : bool :=
-  match v with
-  | PFloat b => float_enc_ok b
-  | PList l => forallb enc_ok l
-  | PMap l => forallb (fun kv => enc_ok (snd kv)) l
-  | PArr _ => false
-  | _ => true
-  end.
-
-(* trees on which today's default-mode decoder is right below the top level: every integer token
-   fits 64 bits and every other number fits binary64 (otherwise the whole decode fails) *)
-Fixpoint ints_ok (t : jtree) : bool :=
-  match t with
-  | JNum true z _ => int64_ok z
-  | JNum false _ b => f_finite b
-  | JArr l => forallb ints_ok l
-  | JObj l => forallb (fun kv => ints_ok (snd kv)) l
-  | _ => true
-  end.
 Definition is_obj (t : jtree) : bool := match t with JObj _ => true | _ => false end.
 
-(* trees on which today's assoc-mode decoder is right: the float reading of every integer token
-   is exact (true up to 2^53 in magnitude), and no fraction/exponent token has an integral value
-   inside the int64 range (it would be turned into an int) *)
-Definition token_exact (isint : bool) (z : Z) (b : N) : bool :=
-  f_finite b &&
-  if isint then int64_ok z && match f_integral b with Some z' => (z' =? z)%Z | None => false end
-  else match f_integral b with
-       | Some z' => negb ((-9223372036854775808 <=? z')%Z && (z' <? 9223372036854775808)%Z)
-       | None => true end.
-Fixpoint exact_tokens (t : jtree) : bool :=
-  match t with
-  | JNum i z b => token_exact i z b
-  | JArr l => forallb exact_tokens l
-  | JObj l => forallb (fun kv => exact_tokens (snd kv)) l
-  | _ => true
-  end.
-
-(* ... and no object has the empty string as a key (the assoc-mode decoder stores keys as slot
-   names, and the empty name means "no name") *)
+(* trees on which today's assoc-mode decoder is right: no object has the empty string as a key
+   (the decoder stores keys as slot names, and the empty name means "no name") *)
 Fixpoint keys_ok (t : jtree) : bool :=
   match t with
   | JArr l => forallb keys_ok l
   | JObj l => forallb (fun kv => negb (is_nil (fst kv)) && keys_ok (snd kv)) l
   | _ => true
   end.
-
-(* what has to hold of the ints and floats of a value for the assoc-mode reading of its tree to be
-   exact: the double nearest to every int is that int, and no float has an integral value in
-   the int64 range *)
-Fixpoint assoc_ok (ib : Z -> N) (v : pval) : bool :=
+(* the same condition on values *)
+Fixpoint vkeys_ok (v : pval) : bool :=
   match v with
-  | PInt z => match f_integral (ib z) with Some z' => (z' =? z)%Z | None => false end
-  | PFloat b => token_exact false 0 b
-  | PList l => forallb (assoc_ok ib) l
-  | PMap l | PArr l => forallb (fun kv => negb (is_nil (fst kv)) && assoc_ok ib (snd kv)) l
+  | PList l => forallb vkeys_ok l
+  | PMap l | PArr l => forallb (fun kv => negb (is_nil (fst kv)) && vkeys_ok (snd kv)) l
   | _ => true
   end.
-
